@@ -43,6 +43,9 @@ std::uint8_t stream_byte(int stream, std::uint64_t i);
 
 struct World;
 
+// thrown by the scenario op `throw` from inside a handler
+struct scenario_exception {};
+
 // ---- network configuration built from the scenario's declarations ----------
 
 // a sink that logs what passes and forwards it
@@ -136,7 +139,10 @@ struct World
 
 	// handler plumbing: every started asynchronous operation has an id h<k>
 	void on_handler(std::string const& h, boost::system::error_code const& ec
-		, std::string const& extra);
+		, std::string const& extra, bool run_ops = true);
+	// self-perpetuating transfers (C06): keep reading until an error / keep writing until `total`
+	void read_loop(std::string const& sock, std::string const& h, std::size_t cap);
+	void write_loop(std::string const& sock, std::string const& h, int stream, std::uint64_t total, std::size_t chunk);
 	std::function<void(boost::system::error_code const&)> make_h(std::string h);
 
 	sim::asio::io_context& node(std::string const& name);
@@ -162,7 +168,7 @@ struct World
 
 extern World* g_world;
 extern std::string g_trace_path;
-extern bool g_mute;
+extern bool g_muted;   // set while the world is torn down: what destructors send is not part of the trace
 
 } // namespace simdrv
 
